@@ -231,7 +231,7 @@ fn drain(f: &mut File, out: &mut Vec<u8>) {
 
 pub const CHILD_PATTERN: &str = "{h({l})} {m} [{h({(x{l}y)})}]|{h({m}):.3}|{h({l}):>7}{n}";
 
-fn expected_output(colour: bool) -> Vec<u8> {
+fn expected_output(colour: bool, abrupt: bool) -> Vec<u8> {
     let mut out = vec![];
     for lvl in crate::routing::LEVELS {
         let style: Option<Vec<u8>> = match lvl {
@@ -264,7 +264,7 @@ fn expected_output(colour: bool) -> Vec<u8> {
         // right-aligned highlight: padding comes before the styled text
         let pad = " ".repeat(7usize.saturating_sub(l.len()));
         hl(&mut out, &pad, &l);
-        out.extend_from_slice(b"\n");
+        out.extend_from_slice(if abrupt { b";" } else { b"\n" });
     }
     out
 }
@@ -272,16 +272,22 @@ fn expected_output(colour: bool) -> Vec<u8> {
 pub fn child_main(args: &[String]) -> i32 {
     let target = if args[0] == "stderr" { Target::Stderr } else { Target::Stdout };
     let tty_only = args[1] == "1";
-    let app = ConsoleAppender::builder()
-        .encoder(Box::new(PatternEncoder::new(CHILD_PATTERN)))
-        .target(target)
-        .tty_only(tty_only)
-        .build();
+    let tty_only_first = args.get(2).map(|s| s == "1").unwrap_or(false);
+    let abrupt = args.get(3).map(|s| s == "1").unwrap_or(false);
+    // abrupt: no record ends in a newline and the process ends with _exit: whatever an append left in a
+    // user-space buffer never reaches the stream
+    let pattern = if abrupt { CHILD_PATTERN.replace("{n}", ";") } else { CHILD_PATTERN.to_owned() };
+    let b = ConsoleAppender::builder().encoder(Box::new(PatternEncoder::new(&pattern)));
+    // the builder's setters commute
+    let app = if tty_only_first { b.tty_only(tty_only).target(target).build() } else { b.target(target).tty_only(tty_only).build() };
     for lvl in crate::routing::LEVELS {
         let msg = format!("msg-{}", lvl.to_string().to_lowercase());
         if app.append(&Record::builder().level(lvl).target("t").args(format_args!("{}", msg)).build()).is_err() {
             return 3;
         }
+    }
+    if abrupt {
+        unsafe { libc::_exit(0) }
     }
     0
 }
@@ -420,8 +426,14 @@ fn console_case(rep: &mut Report, idx: u64) {
     let stderr_target = k % 2 == 1;
     k /= 2;
     let tty_only = k % 2 == 1;
+    k /= 2;
+    let tty_only_first = k % 2 == 1;
+    k /= 2;
+    let abrupt = k % 2 == 1;
     let d = json!({"NO_COLOR": env_name(no_color), "CLICOLOR": env_name(clicolor), "CLICOLOR_FORCE": env_name(force),
-        "target_stream_is": if pty { "pty" } else { "pipe" }, "target": if stderr_target { "stderr" } else { "stdout" }, "tty_only": tty_only});
+        "target_stream_is": if pty { "pty" } else { "pipe" }, "target": if stderr_target { "stderr" } else { "stdout" }, "tty_only": tty_only,
+        "builder_calls": if tty_only_first { ".tty_only(..).target(..)" } else { ".target(..).tty_only(..)" },
+        "records_end_in_newline_and_process_exits_normally": !abrupt});
     rep.case_enumerated(true);
 
     let set = |v: Option<&str>| v.map(|s| s != "0").unwrap_or(false);
@@ -437,7 +449,8 @@ fn console_case(rep: &mut Report, idx: u64) {
     let writes = !tty_only || pty;
 
     let mut cmd = Command::new(crate::childproc::self_exe());
-    cmd.args(["child", "c18", if stderr_target { "stderr" } else { "stdout" }, if tty_only { "1" } else { "0" }]);
+    cmd.args(["child", "c18", if stderr_target { "stderr" } else { "stdout" }, if tty_only { "1" } else { "0" },
+        if tty_only_first { "1" } else { "0" }, if abrupt { "1" } else { "0" }]);
     for (name, v) in [("NO_COLOR", no_color), ("CLICOLOR", clicolor), ("CLICOLOR_FORCE", force)] {
         match v {
             Some(v) => {
@@ -531,7 +544,7 @@ fn console_case(rep: &mut Report, idx: u64) {
     }
     rep.count("console_children", 1);
     let show = |b: &[u8]| String::from_utf8_lossy(b).replace('\x1b', "ESC");
-    let want: Vec<u8> = if writes { expected_output(colour) } else { vec![] };
+    let want: Vec<u8> = if writes { expected_output(colour, abrupt) } else { vec![] };
     if !got_other.is_empty() {
         rep.violation("C18:wrote-to-the-other-stream", json!({"case": d, "other_stream": show(&got_other)}));
     }
@@ -554,8 +567,9 @@ pub fn run(rep: &mut Report) {
     crate::c09::set_test_zone();
     rep.rule = "(a) all 243 styles (9 text x 9 background x 3 intensity) through AnsiWriter<Vec<u8>>::set_style: exactly the one \
         well-formed SGR sequence, no panic (exhaustive); (b) the full matrix NO_COLOR x CLICOLOR x CLICOLOR_FORCE (unset/0/1) x \
-        {pty, pipe} x {stdout, stderr} x tty_only on/off = 216 child processes running a real ConsoleAppender over 5 levels with \
-        nested, truncated and right-aligned highlight groups; the bytes received on the target stream and the other stream are \
+        {pty, pipe} x {stdout, stderr} x tty_only on/off x both orders of the builder's setters x {records end in a newline and \
+        the process exits normally, no newline anywhere and the process ends with _exit} = 864 child processes running a real \
+        ConsoleAppender over 5 levels with nested, truncated and right-aligned highlight groups; the bytes received on the target stream and the other stream are \
         compared with the policy of the statement (exhaustive); (c) random highlight patterns with width specs encoded through \
         the real AnsiWriter and compared byte for byte with the reference renderer; non-trivial: all; distinct = distinct case".to_owned();
     rep.assume("a variable counts as set when present and different from \"0\" (the crate's convention, applied to all three variables)");
@@ -564,7 +578,7 @@ pub fn run(rep: &mut Report) {
     // children: sequential batches on a few threads (ptys are a limited resource)
     let saved = std::env::var("L4V_JOBS").ok();
     std::env::set_var("L4V_JOBS", "8");
-    run_cases(rep, "console", 216, |rep, _rng, idx| console_case(rep, idx));
+    run_cases(rep, "console", 864, |rep, _rng, idx| console_case(rep, idx));
     match saved {
         Some(v) => std::env::set_var("L4V_JOBS", v),
         None => std::env::remove_var("L4V_JOBS"),
@@ -576,7 +590,7 @@ pub fn run(rep: &mut Report) {
     let n = if rep.tier == "thorough" { 400_000 } else { 40_000 };
     run_cases(rep, "ansi", n, ansi_patterns);
     rep.exhaustive = Some(false);
-    rep.set_extra("exhaustive_parts", json!("243 styles and the 216-cell environment matrix are enumerated completely; highlight patterns are sampled"));
-    rep.require(rep.counter("console_children") >= 200, "fewer than 200 of the 216 console children completed");
+    rep.set_extra("exhaustive_parts", json!("243 styles and the 864-cell environment matrix are enumerated completely; highlight patterns are sampled"));
+    rep.require(rep.counter("console_children") >= 800, "fewer than 800 of the 864 console children completed");
     rep.require(rep.counter("styles_checked") == 243, "not all 243 styles were checked");
 }
